@@ -466,38 +466,41 @@ def inPlace : Option Path → List Op → Bool
   | c, .close _ :: tr => inPlace c tr
   | c, .rename _ _ :: tr => inPlace c tr
   | c, .unlink _ :: tr => inPlace c tr
+  | _, .kill :: _ => false
 
 def neutral : Op → Bool
   | .begin _ _ => false
   | .ret => false
   | .creatTrunc _ => false
+  | .kill => false
   | _ => true
 
-theorem ghost_scratch_inPlace : ∀ (tr : List Op) (g : Ghost), g.scratch = [] →
-    inPlace (g.cur.map (·.1)) tr = true → (ghost g tr).scratch = [] := by
+theorem ghost_scratch_inPlace : ∀ (tr : List Op) (g : Ghost), g.scratch = [] → g.dirty = [] →
+    inPlace (g.cur.map (·.1)) tr = true → (ghost g tr).scratch = [] ∧ (ghost g tr).dirty = [] := by
   intro tr
   induction tr with
-  | nil => intro g h _; exact h
+  | nil => intro g h hd _; exact ⟨h, hd⟩
   | cons op tr ih =>
-    intro g h hin
+    intro g h hd hin
     simp only [ghost, List.foldl_cons] at ih ⊢
     cases op with
-    | begin k v => exact ih _ (by simpa [ghostStep] using h) (by simpa [ghostStep, inPlace] using hin)
+    | begin k v => exact ih _ (by simpa [ghostStep] using h) (by simpa [ghostStep] using hd) (by simpa [ghostStep, inPlace] using hin)
     | ret =>
       cases hc : g.cur with
-      | none => exact ih _ (by simp [ghostStep, hc]) (by simpa [ghostStep, hc, inPlace] using hin)
-      | some kv => exact ih _ (by simp [ghostStep, hc]) (by simpa [ghostStep, hc, inPlace] using hin)
+      | none => exact ih _ (by simp [ghostStep, hc]) (by simpa [ghostStep, hc] using hd) (by simpa [ghostStep, hc, inPlace] using hin)
+      | some kv => exact ih _ (by simp [ghostStep, hc]) (by simp [ghostStep, hc, hd]) (by simpa [ghostStep, hc, inPlace] using hin)
+    | kill => simp [inPlace] at hin
     | creatTrunc f =>
       simp only [inPlace, Bool.and_eq_true] at hin
-      refine ih _ ?_ (by simpa [ghostStep] using hin.2)
+      refine ih _ ?_ (by simpa [ghostStep] using hd) (by simpa [ghostStep] using hin.2)
       simp [ghostStep, scratchStep, h, hin.1]
-    | mkdir d => exact ih _ (by simpa [ghostStep, scratchStep] using h) (by simpa [ghostStep, inPlace] using hin)
-    | write f d => exact ih _ (by simpa [ghostStep, scratchStep] using h) (by simpa [ghostStep, inPlace] using hin)
-    | fsyncFile f => exact ih _ (by simpa [ghostStep, scratchStep] using h) (by simpa [ghostStep, inPlace] using hin)
-    | fsyncDir d => exact ih _ (by simpa [ghostStep, scratchStep] using h) (by simpa [ghostStep, inPlace] using hin)
-    | close f => exact ih _ (by simpa [ghostStep, scratchStep] using h) (by simpa [ghostStep, inPlace] using hin)
-    | rename a b => exact ih _ (by simpa [ghostStep, scratchStep] using h) (by simpa [ghostStep, inPlace] using hin)
-    | unlink f => exact ih _ (by simpa [ghostStep, scratchStep] using h) (by simpa [ghostStep, inPlace] using hin)
+    | mkdir d => exact ih _ (by simpa [ghostStep, scratchStep] using h) (by simpa [ghostStep] using hd) (by simpa [ghostStep, inPlace] using hin)
+    | write f d => exact ih _ (by simpa [ghostStep, scratchStep] using h) (by simpa [ghostStep] using hd) (by simpa [ghostStep, inPlace] using hin)
+    | fsyncFile f => exact ih _ (by simpa [ghostStep, scratchStep] using h) (by simpa [ghostStep] using hd) (by simpa [ghostStep, inPlace] using hin)
+    | fsyncDir d => exact ih _ (by simpa [ghostStep, scratchStep] using h) (by simpa [ghostStep] using hd) (by simpa [ghostStep, inPlace] using hin)
+    | close f => exact ih _ (by simpa [ghostStep, scratchStep] using h) (by simpa [ghostStep] using hd) (by simpa [ghostStep, inPlace] using hin)
+    | rename a b => exact ih _ (by simpa [ghostStep, scratchStep] using h) (by simpa [ghostStep] using hd) (by simpa [ghostStep, inPlace] using hin)
+    | unlink f => exact ih _ (by simpa [ghostStep, scratchStep] using h) (by simpa [ghostStep] using hd) (by simpa [ghostStep, inPlace] using hin)
 
 theorem inPlace_prefix : ∀ (a b : List Op) (c : Option Path), inPlace c (a ++ b) = true → inPlace c a = true := by
   intro a
@@ -507,6 +510,7 @@ theorem inPlace_prefix : ∀ (a b : List Op) (c : Option Path), inPlace c (a ++ 
     intro b c h
     cases op <;> simp only [List.cons_append, inPlace, Bool.and_eq_true] at h ⊢
     case creatTrunc f => exact ⟨h.1, ih b c h.2⟩
+    case kill => exact absurd h (by simp)
     all_goals exact ih b _ h
 
 theorem inPlace_neutral : ∀ (l r : List Op) (c : Option Path), l.all neutral = true →
@@ -548,12 +552,12 @@ theorem inPlace_traceOf_fixed (b : Nat) : ∀ (sets : List (Path × Bytes)) (s :
     rw [inPlace_setOps_fixed]
     exact ih _ none
 
-/-- no prefix of a trace of the repaired (in-place) write path has scratch files -/
+/-- no prefix of a trace of the repaired (in-place) write path has scratch files or killed sets -/
 theorem scratchOf_fixed (b : Nat) (sets : List (Path × Bytes)) (pre suf : List Op)
-    (htr : traceOf .strict skFixed true b init sets = pre ++ suf) : scratchOf pre = [] := by
+    (htr : traceOf .strict skFixed true b init sets = pre ++ suf) : scratchOf pre = [] ∧ dirtyOf pre = [] := by
   have h := inPlace_traceOf_fixed b sets init none
   rw [htr] at h
-  exact ghost_scratch_inPlace pre {} rfl (inPlace_prefix pre suf none h)
+  exact ghost_scratch_inPlace pre {} rfl rfl (inPlace_prefix pre suf none h)
 
 /-- **C17 for the model of the repaired code, outright**: for every sequence of sets through the
     repaired `_write_file` (any length, values, buffer size; keys prefix-free), every crash
@@ -563,7 +567,7 @@ theorem kvs_crash_safe (b : Nat) (sets : List (Path × Bytes)) (hv : ValidKeys (
     (pre suf : List Op) (htr : traceOf .strict skFixed true b init sets = pre ++ suf) :
     ∀ c ∈ crashAfter .strict pre, ∀ k, inProgress pre ≠ some k → recover c k = lastCompleted pre k :=
   fun c hc k hk => crash_safety_core .strict _ pre suf htr (fixed_write_path_wf b sets hv) c hc k hk
-    (by simp [scratchOf_fixed b sets pre suf htr])
+    (by simp [(scratchOf_fixed b sets pre suf htr).1]) (by simp [(scratchOf_fixed b sets pre suf htr).2])
 
 /-- non-vacuity: the demo sequence (nested key, second key, overwrite) has valid keys, and the
     theorem gives e.g. durability of key 3 in the middle of the overwrite of 1/2 -/
